@@ -99,6 +99,7 @@ theorem recvSession_cases (c : Cfg) (s : St) :
     · rename_i x r _
       cases x with
       | ses y => exact Or.inl ⟨y, rfl, rfl⟩
+      | sesGone y => exact Or.inl ⟨y, rfl, rfl⟩
       | other => exact Or.inr ⟨rfl, Or.inr ⟨.other, (fun x h => by cases h), rfl⟩⟩
       | fail eof =>
         cases eof with
@@ -112,6 +113,7 @@ theorem recvSession_cases (c : Cfg) (s : St) :
     · simp
     · rename_i x r _; cases x with
       | ses y => rfl
+      | sesGone y => rfl
       | other => rfl
       | fail eof => cases eof <;> simp [recvItem]
 @[simp] theorem recvSession_enc (c : Cfg) (s : St) : (recvSession c s).2.enc = s.enc := by
@@ -121,6 +123,7 @@ theorem recvSession_cases (c : Cfg) (s : St) :
     · simp
     · rename_i x r _; cases x with
       | ses y => rfl
+      | sesGone y => rfl
       | other => rfl
       | fail eof => cases eof <;> simp [recvItem]
 
